@@ -136,6 +136,11 @@ def _check_case(repo, case: S.SimCase, rank):
         last_fill = max([i for i, ev in enumerate(out.events) if ev[0] == "fill"], default=-1)
         if len(liq) != 1 or liq[0] < last_fill:
             viols.append(("C09-R2", f"match-loop|liqcheck|{desc}", f"liquidation check not run exactly once after matching for {desc}"))
+        else:
+            lc = out.events[liq[0]][1]
+            if not all(isinstance(x, R) and _val(x, s) == _val(y, s) for x, y in zip(lc, real)):
+                viols.append(("C09-R2", f"match-loop|liqcheck-range|{desc}",
+                              f"the liquidation check does not look at the whole minute's range but at {[repr(x) for x in lc[1:5]]} (o,c,h,l) for {desc}"))
         if trace_sample is None:
             trace_sample = {"ordering": desc, "fills": got,
                             "expected_positions": {k: [v[0], str(v[1])] for k, v in pos.items()}}
